@@ -9,8 +9,10 @@ PROPS = ["C16"]
 
 # concrete realisations of the abstract defect class "bad" (driver: run.build); every one is rejected by exactly
 # one stage of Module.verifyRegistration
-REG_BAD = ["ldp", "noid", "aud", "noaud", "noexp", "toolong", "expired", "method", "outlive", "missing", "surplus",
-           "nonmatch", "nonmatch-issuer", "badsig", "otherkey", "vcsig"]
+REG_BAD = ["ldp", "noid", "aud", "noaud", "noexp", "toolong", "expired", "method", "outlive", "outlive-self", "missing",
+           "missing-member", "missing-registration", "surplus", "surplus-registration", "nonmatch", "nonmatch-issuer", "badsig",
+           "otherkey", "vcsig"]
+ORDERS = ["mf", "sf"]   # credential order inside a registration: member credential first / the holder's own credential first
 RET_BAD = ["ldp", "noid", "aud", "noaud", "noexp", "toolong", "expired", "method", "badsig", "otherkey", "ret-nojti"]
 POLL = [dict(a="PollFirst"), dict(a="PollSecond"), dict(a="ClientApply")]
 
@@ -80,6 +82,10 @@ def features(b):
             phase = "resp"
         elif a == "ClientApply":
             phase = "idle"
+            if s.get("out"):
+                f.add(("outage",))
+        elif a == "ClientValidate":
+            f.add(("validate", phase))
     return f
 
 
@@ -107,7 +113,7 @@ def pick(behaviours, n, rnd):
 def trim(b):
     """Drops complete polls at the end (the driver always appends its own fair suffix of polls)."""
     b = list(b)
-    while len(b) >= 3 and [s["a"] for s in b[-3:]] == ["PollFirst", "PollSecond", "ClientApply"]:
+    while len(b) >= 3 and [s["a"] for s in b[-3:]] == ["PollFirst", "PollSecond", "ClientApply"] and not b[-1].get("out"):
         b = b[:-3]
     return b
 
@@ -122,6 +128,8 @@ def concretise(b, rnd):
                 s["c"] = rnd.choice(REG_BAD if s["kind"] == "reg" else RET_BAD)
             elif s["d"] == "ret-unknown":
                 s["c"] = rnd.choice(["", "ret-nojti"])
+            # the order of the credentials is the environment's choice and must not matter to the verdict
+            s["o"] = rnd.choice(ORDERS) if s["kind"] == "reg" else "mf"
         out.append(s)
     return out
 
@@ -147,14 +155,15 @@ def run_tlc_checks(quick, coverage):
     tier = "quick" if quick else "thorough"
     out = {}
     def one(name, cfg, workers):
-        r = vlib.tlc("MCDiscovery", cfg, workers=workers, timeout=2400, coverage=coverage and name == "safety")
+        r = vlib.tlc("MCDiscovery", cfg, workers=workers, timeout=2400, coverage=coverage and name in ("safety", "validate"))
         ok = r.ok
         if not ok:
             raise Inconclusive("model %s: violation=%s error=%s\n%s" % (cfg, r.violation, r.error, r.raw[-2500:]))
         return name, cfg, r
-    with ThreadPoolExecutor(max_workers=2) as ex:
-        futs = [ex.submit(one, "safety", "Discovery.safety.%s.cfg" % tier, 4 if quick else 6),
-                ex.submit(one, "live", "Discovery.live.%s.cfg" % tier, 4 if quick else 2)]
+    with ThreadPoolExecutor(max_workers=3) as ex:
+        futs = [ex.submit(one, "safety", "Discovery.safety.%s.cfg" % tier, 4),
+                ex.submit(one, "validate", "Discovery.validate.%s.cfg" % tier, 2),
+                ex.submit(one, "live", "Discovery.live.%s.cfg" % tier, 2)]
         for f in futs:
             name, cfg, r = f.result()
             out[name] = (cfg, r)
@@ -173,10 +182,14 @@ def vacuity(models):
         ("ListedOnlyVerified|RetractionOnlyBySigner", dict(Checks='{"bad", "replay", "ret-unknown", "ret-creds"}'), "a retraction of somebody else's entry"),
         ("SearchSound", dict(SearchValidatedOnly="FALSE"), "search without the validated filter"),
         ("SearchSound", dict(SearchUnexpiredOnly="FALSE"), "search without the expiry filter"),
+        ("SearchSound", dict(ValidateMarksPassing="FALSE", _base="Discovery.validate.quick.cfg"),
+         "a validation round that flags other rows than the ones that passed"),
     ]
     def one(case):
         want, repl, why = case
-        r = vlib.tlc("MCDiscovery", base, workers=2, timeout=900, files={"run.cfg": subst(base, **repl)})
+        repl = dict(repl)
+        b = repl.pop("_base", base)
+        r = vlib.tlc("MCDiscovery", b, workers=2, timeout=900, files={"run.cfg": subst(b, **repl)})
         if r.violation not in want.split("|"):
             raise Inconclusive("vacuity guard: with %s TLC should violate %s, got violation=%s error=%s" % (why, want, r.violation, r.error))
         return dict(expect_violated=want, variant=repl, got=r.violation)
@@ -191,20 +204,30 @@ def vacuity(models):
     models.append(dict(vacuity_guards=res))
 
 
-def generate(quick, seed, rnd, n_exh, n_sim):
-    gen_cfg = "Discovery.gen.quick.cfg" if quick else "Discovery.gen.cfg"
-    g = vlib.tlc("MCDiscovery", variant(gen_cfg), workers=8, timeout=2400)
-    if not g.ok:
-        raise Inconclusive("generation run failed: %s %s" % (g.violation, g.error))
-    wit = g.printed
-    wit.sort(key=lambda b: json.dumps(b, sort_keys=True))
-    chosen, nb = pick(wit, n_exh, rnd)
+def generate(quick, seed, rnd, n_exh, n_val, n_sim):
+    """Witnesses of the two descriptive generation models (main family; family "validate": an apply with an unavailable
+    verifier and background validation rounds) and random walks of the simulation model (everything combined)."""
+    gens, chosen, n_wit, nb = [], [], 0, 0
+    for fam, cfg, n in (("main", "Discovery.gen.quick.cfg" if quick else "Discovery.gen.cfg", n_exh),
+                        ("validate", "Discovery.gen.validate.quick.cfg" if quick else "Discovery.gen.validate.cfg", n_val)):
+        g = vlib.tlc("MCDiscovery", variant(cfg), workers=8, timeout=2400)
+        if not g.ok:
+            raise Inconclusive("generation run %s failed: %s %s" % (cfg, g.violation, g.error))
+        wit = g.printed
+        if fam == "validate":   # the main family already covers behaviours without an outage
+            wit = [b for b in wit if any(s.get("out") for s in b)]
+        wit.sort(key=lambda b: json.dumps(b, sort_keys=True))
+        c, k = pick(wit, n, rnd)
+        chosen += [(fam, b) for b in c]
+        n_wit += len(wit)
+        nb += k
+        gens.append((cfg, g))
     s = vlib.tlc("MCDiscovery", variant("Discovery.sim.cfg"), workers=1, simulate="num=%d" % n_sim, depth=45, seed=seed, timeout=1200)
     if s.error:
         raise Inconclusive("simulation failed: " + str(s.error))
     sim = vlib.dedupe_maximal(s.printed)
     sim.sort(key=lambda b: json.dumps(b, sort_keys=True))
-    return g, len(wit), nb, chosen, sim
+    return gens, n_wit, nb, chosen, sim
 
 
 def judge(rep, prop, results, scripts, common):
@@ -246,18 +269,20 @@ def run(prop, tier, seed, replay=None):
 
     quick = tier == "quick"
     rnd = random.Random(seed)
-    n_exh, n_sim = (240, 160) if quick else (2000, 1200)
+    n_exh, n_val, n_sim = (200, 100, 140) if quick else (1700, 700, 1000)
     common = dict(workers=6, final_polls=3)
 
     phases = {}
     # 1. behaviours from the descriptive model
-    g, n_wit, n_buckets, chosen, sim = generate(quick, seed, rnd, n_exh, n_sim)
+    gens, n_wit, n_buckets, chosen, sim = generate(quick, seed, rnd, n_exh, n_val, n_sim)
     phases["generate"] = round(time.time() - t0, 1)
     scripts = {}
-    for pre, bs in (("w", chosen), ("s", sim)):
-        for i, b in enumerate(bs):
-            sid = "%s%05d" % (pre, i)
-            scripts[sid] = dict(id=sid, steps=concretise(trim(b), rnd))
+    for i, (fam, b) in enumerate(chosen):
+        sid = "%s%05d" % ("w" if fam == "main" else "v", i)
+        scripts[sid] = dict(id=sid, steps=concretise(trim(b), rnd))
+    for i, b in enumerate(sim):
+        sid = "s%05d" % i
+        scripts[sid] = dict(id=sid, steps=concretise(trim(b), rnd))
     order = sorted(scripts.values(), key=lambda s: (0 if any(x["a"] == "Tick" for x in s["steps"]) else 1, s["id"]))
 
     # 2. in parallel: TLC proves the prescriptive design; the behaviours run on the real code
@@ -283,10 +308,11 @@ def run(prop, tier, seed, replay=None):
         # vlib's pattern misses actions that are called with arguments ("<Submit line .. (195 13 195 52)>: n:m")
         for mm in re.finditer(r"^<(\w+) line [^>]*>: (\d+):(\d+)", r.raw, re.M):
             cover[mm.group(1)] = max(cover.get(mm.group(1), 0), int(mm.group(3)))
-    models.append(dict(cfg="Discovery.gen.quick.cfg" if quick else "Discovery.gen.cfg", states=g.distinct,
-                       transitions=g.generated, role="behaviour generation (descriptive model)", wall_s=round(g.wall, 1)))
+    for cfg, g in gens:
+        models.append(dict(cfg=cfg, states=g.distinct, transitions=g.generated, role="behaviour generation (descriptive model)",
+                           wall_s=round(g.wall, 1)))
     if not quick:
-        missing = [a for a in ("Submit", "Tick", "ServerReset", "PollFirst", "PollSecond", "ClientApply") if not cover.get(a)]
+        missing = [a for a in ("Submit", "Tick", "ServerReset", "PollFirst", "PollSecond", "ClientApply", "ClientValidate") if not cover.get(a)]
         if missing:
             raise Inconclusive("vacuity: actions never fire in the exhaustive run: %s" % missing)
         vacuity(models)
